@@ -145,6 +145,24 @@ def run_one(ck, prog):
             ck.ob("C16.1", "descriptors-only-from-an-scm-rights-header|level", tested("cmsg_level"), fn=it[0]["path"], site=ctx.site(yb), detail="ScmRights may be produced only under cmsg_level == SOL_SOCKET (1)")
             ck.ob("C16.1", "descriptors-only-from-an-scm-rights-header|type", tested("cmsg_type"), fn=it[0]["path"], site=ctx.site(yb), detail="ScmRights may be produced only under cmsg_type == SCM_RIGHTS (1); other socket-level ancillary data would be decoded as descriptors that were never passed")
 
+    # sending: the control buffer is sized from the bytes that are then copied into it - cmsg_space(size_of_val(fds)), the same byte count
+    # the copy uses (sizing it by the NUMBER of descriptors agrees for one or two of them and overflows the buffer from three on)
+    cs = [f for p2, f in prog.fns.items() if p2.startswith("rusl::platform::compat::socket::MsgHdrBorrow") and p2.endswith("::create_send")]
+    if ck.config == "C" and not cs:
+        pass
+    elif ck.anchor("C16.1", "MsgHdrBorrow::create_send", cs):
+        c4 = prog.ctx(cs[0])
+        allocs = [bb for bb, t in c4.cfg.calls(lambda t: (t.get("callee") or "").endswith(("vec::from_elem", "Vec::<T>::with_capacity", "Vec::<T, A>::resize")))]
+        copies = [bb for bb, t in c4.cfg.calls(lambda t: (t.get("callee") or "").endswith(("ptr::copy_nonoverlapping", "copy_from_slice", "ptr::copy")))]
+        ck.ob("C16.1", "send|anchor|control-buffer", len(allocs) == 1 and len(copies) >= 1, fn=cs[0]["path"], detail=f"control buffer allocations {len(allocs)}, payload copies {len(copies)}")
+        if len(allocs) == 1 and copies:
+            ln = c4.args(allocs[0])[-1]
+            cp = c4.args(copies[0])
+            want = canon(strip_casts(cp[2])) if len(cp) > 2 else None
+            ok = want is not None and any(canon(strip_casts(z)) == want for z in walk_deep(ln, c4.prov, limit=200))
+            ck.ob("C16.1", "send|control-buffer-sized-from-the-bytes-copied", ok, fn=cs[0]["path"], site=c4.site(allocs[0]),
+                  detail=f"the control buffer length {show(ln)[:100]} must be computed from the byte count {show(cp[2])[:60] if len(cp) > 2 else None} that is copied into it")
+
     # the first header exists only if the RECEIVED control length holds one: msg_control is looked at only under msg_controllen >= size_of(cmsghdr)
     cm = [f for p2, f in prog.fns.items() if p2.startswith("rusl::platform::compat::socket::MsgHdrBorrow") and p2.endswith("::control_messages")]
     if ck.config == "C" and not cm:
